@@ -15,6 +15,7 @@ package frugal
 
 import (
 	"bytes"
+	"fmt"
 	"sync"
 	"time"
 
@@ -318,6 +319,12 @@ func (f *fNatsServer) worker() {
 // processFrame invokes the FProcessor and sends the response on the given
 // subject.
 func (f *fNatsServer) processFrame(frame *frameWrapper) error {
+	// Need at least 4 bytes for the frame size.
+	if len(frame.frameBytes) < 4 {
+		return thrift.NewTProtocolExceptionWithType(thrift.INVALID_DATA,
+			fmt.Errorf("frugal: invalid frame size %d", len(frame.frameBytes)))
+	}
+
 	// Read and process frame.
 	input := &thrift.TMemoryBuffer{Buffer: bytes.NewBuffer(frame.frameBytes[4:])} // Discard frame size
 	// Only allow 1MB to be buffered.
